@@ -31,7 +31,8 @@ THEOREMS = ["Builder.sim", "Builder.documented_eq_bound_partial", "Builder.kind_
             "Builder.documented_eq_bound_inherited_counterexample_old", "Builder.documented_eq_bound_tail_counterexample",
             "Builder.documented_eq_bound_rebinding_counterexample", "Builder.documented_eq_bound_overload_counterexample",
             "Builder.maybeAttribute_eq_find", "Builder.inheritedNonAttrOf_contains", "Builder.rel_put", "Builder.rel_updvar",
-            "Builder.documented_eq_bound_del_counterexample", "Builder.docstring_eq_docassign_counterexample_old",
+            "Builder.documented_eq_bound_del_counterexample", "Builder.documented_eq_bound_else_taken_counterexample",
+            "Builder.documented_eq_bound_alias_counterexample", "Builder.kind_eq_wrapassign_counterexample", "Builder.docstring_eq_docassign_counterexample_old",
             "Builder.kind_eq_counterexample", "Builder.oldstyle_rewrap_last_wins", "Builder.oldstyle_double_wrap_asserts_old", "Builder.isNameEqualsMain_iff",
             "Builder.recognised_not_taken", "Builder.near_misses_taken_and_entered",
             "Builder.documented_eq_bound_untaken_guard_counterexample",
@@ -101,9 +102,9 @@ class ctx:
     def __exit__(self, *a):
         return False
 '''
-IMPORTED = {"builtins", "overload", "deco", "deco2", "dfac", "ctx", "log_property", "my_staticmethod", "_decos"}
+IMPORTED = {"builtins", "sys", "_no_such_module_", "overload", "deco", "deco2", "dfac", "ctx", "log_property", "my_staticmethod", "_decos"}
 TARGETS = {"_i", "_cm"}
-HEADER = ["import builtins", "from typing import overload",
+HEADER = ["import builtins", "import sys", "from typing import overload",
           "from pk._h import deco, deco2, dfac, ctx, log_property, my_staticmethod, _decos"]
 
 EXC_COMMON = ["Exception", "ValueError", "KeyError", "RuntimeError", "TypeError", "Warning", "BaseException", "LookupError"]
@@ -296,7 +297,7 @@ def guard_taken(g) -> bool:
 def bound_names(stmts: list) -> List[str]:
     out: List[str] = []
     for s in stmts:
-        if s[0] in ("def", "class", "asg", "ann", "old", "doc", "del"):
+        if s[0] in ("def", "class", "asg", "ann", "old", "doc", "del", "alias", "wrap"):
             out.append(s[1])
         elif s[0] == "blk":
             out += bound_names(s[2]) + bound_names(s[3])
@@ -562,6 +563,17 @@ class ProjGen:
             k = rng.choice(["def", "def", "def", "asg", "asg", "class", "blk", "cmp", "str", "main", "oth", "doc", "del"])
             if k == "def":
                 self.gen_def(sc, seen, out, indent_depth)
+            elif k == "asg" and rng.random() < 0.12 and sc.qname[0] != "<" and [n for n in seen if not sc.labels.get(n)]:
+                # `name = other_name` (hunt/C03/2) and, in a class, `name = property(getter)` / `staticmethod(f)` (hunt/C03/4)
+                src = rng.choice([n for n in seen if not sc.labels.get(n)])
+                nm = self.fresh("a")
+                if sc.in_class and src in sc.docable and rng.random() < 0.5:
+                    sc.label(nm, "wrap-call")
+                    out.append(("wrap", nm, rng.choice(["p", "p", "s", "c"]), src))
+                else:
+                    sc.label(nm, "alias")
+                    out.append(("alias", nm, src))
+                seen[nm] = "attr"
             elif k == "asg":
                 self.gen_assign(sc, seen, out, indent_depth, inherited)
             elif k == "class" and depth < 2:
@@ -582,6 +594,21 @@ class ProjGen:
                             sc.label(nm, "tail-def")
                         tail.append(("def", nm, False, [], None, ""))
                 out.append(("blk", kind, body, tail))
+                if rng.random() < 0.25 and sc.qname[0] != "<":
+                    # the part that RUNS is the else branch / the except handler (hunt/C03/1): pydoctor walks `.body` only
+                    form = rng.choice(["if", "try"])
+                    ebody: list = [("oth",)] if form == "if" else []
+                    if form == "if" and self.chance(0.2):
+                        nm = self.fresh("u")
+                        sc.label(nm, "untaken-body")
+                        ebody.append(("def", nm, False, [], None, ""))
+                    etail: list = []
+                    for _ in range(rng.randint(1, 2)):
+                        nm = self.fresh(rng.choice(["e", "E"]))
+                        sc.label(nm, "else-taken")
+                        etail.append(rng.choice([("def", nm, False, [], gen_doc(rng, "    " * (indent_depth + 2)), ""),
+                                                 ("asg", nm, "None", "N", None)]))
+                    out.append(("blk", "e", ebody, etail, form))
             elif k == "str" and rng.random() < 0.5:
                 # a string statement wherever it falls (after a def, a class, a property, a block)
                 if out and out[-1][0] == "def" and any(d in ("p", "P") for d in out[-1][3]) and sc.in_class:
@@ -746,6 +773,19 @@ class ProjGen:
                 out.append(ind + "%s: %s" % (s[1], s[2]))
             elif k == "str":
                 out.append(doc_src(ind, s[1]))
+            elif k == "blk" and s[1] == "e":
+                _, kind, body, tail, form = s
+                if form == "if":
+                    out.append(ind + self.rng.choice(["if sys.version_info < (3,):", "if not sys.version_info:", "if sys.platform == 'no-such-os':"]))
+                    out += self.emit(body, d + 1) or [ind + "    pass"]
+                    out.append(ind + "else:")
+                else:
+                    out += [ind + "try:", ind + "    import _no_such_module_", ind + "except ImportError:"]
+                out += self.emit(tail, d + 1)
+            elif k == "alias":
+                out.append(ind + "%s = %s" % (s[1], s[2]))
+            elif k == "wrap":
+                out.append(ind + "%s = %s(%s)" % (s[1], {"p": "property", "s": "staticmethod", "c": "classmethod"}[s[2]], s[3]))
             elif k == "blk":
                 _, kind, body, tail = s
                 head = {"i": "if True:", "t": "try:", "w": self.rng.choice(["with ctx():", "with ctx() as _cm:"]), "f": "for _i in [0]:"}[kind]
@@ -813,6 +853,10 @@ def stmt_tokens(stmts: list) -> List[str]:
             out += ["str", enc(s[1])]
         elif k == "blk":
             out += ["blk", s[1], "("] + stmt_tokens(s[2]) + [")", "("] + stmt_tokens(s[3]) + [")"]
+        elif k == "alias":
+            out += ["alias", enc(s[1]), enc(s[2])]
+        elif k == "wrap":
+            out += ["wrap", enc(s[1]), s[2], enc(s[3])]
         elif k == "cmp":
             g = s[1]
             out += ["cmp", g[0], g[1], g[2], str(g[3]), "("] + stmt_tokens(s[2]) + [")"]
@@ -861,6 +905,9 @@ def label_strings(sc: Scope, inh: Set[str] = frozenset()) -> None:
                 if cur[0] is not None:
                     sc.label(cur[0], "string-after-property")
                 cur[0] = None
+            elif k == "wrap":
+                cur[0] = None
+                own.setdefault(s[1], "attr")
             elif k == "blk" or k == "cmp":
                 walk(s[2])
     walk(sc.stmts)
@@ -1029,26 +1076,44 @@ def ann_parts(ann: str) -> Tuple[str, Optional[List[str]]]:
     return head, [x.strip() for x in rest.rstrip("]").split(",")]
 
 
+# generator labels that mark a genuine, recorded divergence from CPython (specific signatures)
+FINDING_LABELS = [
+    ("else-taken", "missing-member:else-except-finally-clause"),
+    ("tail-def", "missing-member:else-except-finally-clause"),
+    ("alias", "missing-member:alias-assignment"),
+    ("wrap-call", "kind:call-of-property-or-wrapper"),
+    ("rebound", "kind:definition-then-assignment"),
+    ("stacked-descriptors", "kind:stacked-descriptors"),
+    ("qualified-spelling", "kind:qualified-decorator-spelling"),
+]
+
+
 def oracle_scope(ctx: Ctx, sc: Scope, pd: Dict[str, Dict[str, Any]], py: Dict[str, Dict[str, Any]], in_subset: bool,
                  files: Dict[str, str], inh: Set[str] = frozenset(), request: str = "") -> None:
     inp = {"scope": sc.qname, "files": files, "request": request}
 
     def excused(name: str) -> Optional[str]:
-        """mismatch on a name the generator put outside the theorem's subset for a reason that is not a recorded finding"""
-        for why in ("rebound", "overload", "tail-def", "stacked-descriptors", "qualified-spelling",
-                    "opaque-named-property", "module-level-descriptor", "untaken-guard", "deleted"):
+        """mismatch on a name the generator put outside the property's quantifier (see notes/C03.md, "Hunter round")"""
+        for why in ("overload", "opaque-named-property", "module-level-descriptor", "untaken-guard", "untaken-body", "deleted"):
             if why in sc.labels.get(name, ()):
                 return why
         return None
 
     def report(sig: str, name: str, what: str) -> None:
-        why = excused(name.split(".")[0])
-        if why and not sig.startswith(("invented-member:property-setter", "invented-member:bare-annotation")):
-            ctx.count("out-of-subset:" + why)
-            return
+        base = name.split(".")[0]
+        labels = sc.labels.get(base, ())
+        if not sig.startswith(("invented-member:property-setter", "invented-member:bare-annotation")):
+            for lab, fsig in FINDING_LABELS:
+                if lab in labels:
+                    ctx.fail(fsig, dict(inp, name=name), "%s: %s [%s]" % (sc.qname, what, lab))
+                    return
+            why = excused(base)
+            if why:
+                ctx.count("out-of-subset:" + why)
+                return
         ctx.fail(sig, dict(inp, name=name), "%s: %s" % (sc.qname, what))
 
-    pyn = {n: d for n, d in py.items() if d["kind"] != "imported-or-alias"}
+    pyn = {n: d for n, d in py.items() if d["kind"] != "imported-or-alias" or "alias" in sc.labels.get(n, ())}
     for n in pd:
         if n not in pyn:
             if n in py:      # bound to a foreign object (lone @overload)
@@ -1061,7 +1126,10 @@ def oracle_scope(ctx: Ctx, sc: Scope, pd: Dict[str, Dict[str, Any]], py: Dict[st
                 report("invented-member:other", n, "documents %r which Python does not bind" % n)
     for n, d in pyn.items():
         if n not in pd:
-            if n in inh and d["kind"] == "variable":
+            if n in TARGETS:
+                ctx.fail("missing-member:loop-or-with-target", dict(inp, name=n),
+                         "%s: %r is bound by a `for` / `with … as` statement of the namespace and not documented" % (sc.qname, n))
+            elif n in inh and d["kind"] == "variable":
                 report("missing-member:shadows-inherited", n, "class attribute %r (assigned a literal) is not documented because a base class has a method/class of that name" % n)
             else:
                 report("missing-member:other", n, "Python binds %r, pydoctor does not document it" % n)
@@ -1382,6 +1450,15 @@ def assemble(mod_specs: List[Tuple[str, bool, List[str], list]]):
             if st[0] == "blk" and st[1] in ("t", "f"):
                 for nm in bound_names(st[3]):
                     sc.label(nm, "tail-def")
+            if st[0] == "blk" and st[1] == "e":
+                for nm in bound_names(st[3]):
+                    sc.label(nm, "else-taken")
+                for nm in bound_names(st[2]):
+                    sc.label(nm, "untaken-body")
+            if st[0] == "alias":
+                sc.label(st[1], "alias")
+            if st[0] == "wrap":
+                sc.label(st[1], "wrap-call")
         defs: Set[str] = set()
 
         def mark(stmts: list) -> None:
@@ -1448,6 +1525,13 @@ def corpus_packages():
         ("cmp", ("m", "eq", "d", 0), [D("rev_main")]),                          # outside: `'__main__' == __name__` (untaken, entered)
         ("blk", "t", [("oth",)], [D("in_finally")]),                            # outside: definitions in else/finally
         ("blk", "f", [A("in_for", "1")], [D("in_for_else")]),
+        # hunt/C03/1: the else branch / the except handler is what runs
+        ("blk", "e", [("oth",)], [D("only_py3", (), "doc"), A("PY3", "True")], "if"),
+        ("blk", "e", [], [A("accelerator", "None")], "try"),
+        # hunt/C03/2: a variable assigned a name; hunt/C03/4: property()/staticmethod() calls
+        A("LIMIT", "10"), ("alias", "DEFAULT_LIMIT", "LIMIT"), D("helper", (), "doc"), ("alias", "run", "helper"),
+        C("K40", 40, (), [D("_get", (), "The value."), ("wrap", "value", "p", "_get"), ("wrap", "make", "s", "_get"),
+                          A("size", "1"), ("alias", "length", "size"), ("alias", "call", "_get")]),
     ]
     ma = [
         C("K2", 20, (), [
@@ -1503,6 +1587,14 @@ async def agen():
     yield 1
 async def coro():
     pass
+class D:
+    __doc__ = "docstring given in the body"
+class I:
+    x = 1
+    def set(self):
+        self.x = 'a'
+if (walrus := 3):
+    pass
 """
 
 
@@ -1533,6 +1625,17 @@ def probe_review(ctx: Ctx) -> None:
         ctx.fail("infer:stale-type-after-unpacking", dict(inp, scope="m", name="retyped"),
                  "m.retyped: inferred %s from the first assignment, the value after `retyped, other = 'a', 'b'` is a %s"
                  % (ann, type(glob["retyped"]).__name__))
+    if s.allobjects["m.D"].docstring != inspect.cleandoc(glob["D"].__doc__):
+        ctx.fail("docstring:class-doc-assigned-in-body", dict(inp, scope="m", name="D"),
+                 "m.D: `__doc__ = \"…\"` in the class body: docstring %r, interpreter %r" % (s.allobjects["m.D"].docstring, glob["D"].__doc__))
+    ix = s.allobjects["m.I"].contents.get("x")
+    ixann = ast.unparse(ix.annotation) if ix is not None and ix.annotation is not None else None
+    if ixann is not None and ixann != type(vars(glob["I"])["x"]).__name__:
+        ctx.fail("infer:instance-assignment-overrides-class-variable", dict(inp, scope="m.I", name="x"),
+                 "m.I.x: the class binds x = 1 (int); `self.x = 'a'` in a method makes pydoctor document %s %s" % (ix.kind.name, ixann))
+    if "walrus" in glob and "walrus" not in s.allobjects["m"].contents:
+        ctx.fail("missing-member:loop-or-with-target", dict(inp, scope="m", name="walrus"),
+                 "m: `walrus` is bound by an assignment expression at module level and not documented")
     for fn in ("agen", "coro"):
         o = s.allobjects["m." + fn]
         if bool(o.is_async) != inspect.iscoroutinefunction(glob[fn]):
@@ -1681,7 +1784,8 @@ def run_batch(ctx: Ctx, batch, pyres) -> None:
             toks = " ".join(stmt_tokens(sc.stmts))
             pdl, pdinfo = pd_dump(obj)
             skip = IMPORTED | TARGETS | set(getattr(sc, "imported", ()))
-            pyl, pyinfo = py_line(pyd, skip)
+            pyl, _ = py_line(pyd, skip)
+            _, pyinfo = py_line(pyd, skip - TARGETS)
             reqs_pd.append("builder pd " + head + toks)
             impl_pd.append(pdl)
             reqs_py.append("builder py " + head + toks)
@@ -1711,9 +1815,12 @@ def run_batch(ctx: Ctx, batch, pyres) -> None:
         if v == "in" and any(x - {"shadows-inherited", "string-after-property", "rebound-ok", "doc-assign-unclean", "qualified-base"} for x in sc.labels.values()):
             # the generator's labels and the Lean predicate must agree on what is outside the subset
             ctx.disagree("subset-labels", {"scope": sc.qname, "labels": {k: sorted(x) for k, x in sc.labels.items()}, "files": files}, "in", "labelled")
-        before = len(ctx.failures), sum(f["count"] for f in ctx.failures)
+        def tally():
+            fs = [f for f in ctx.failures if f["signature"] != "missing-member:loop-or-with-target"]   # targets are not in the IR
+            return len(fs), sum(f["count"] for f in fs)
+        before = tally()
         oracle_scope(ctx, sc, pdinfo, pyinfo, v == "in", files, inh, rq)
-        after = len(ctx.failures), sum(f["count"] for f in ctx.failures)
+        after = tally()
         if v == "in" and before != after:
             ctx.fail("theorem-region-mismatch", {"scope": sc.qname, "files": files, "request": rq},
                      "a namespace inside Subset.inSubset on which pydoctor and CPython differ")
